@@ -16,7 +16,12 @@ class MatrixOfCellIdentifiersTokenTranslator(AbstractTranslator):
         from excel2pycl.src.translators.cell_translator import CellTranslator
 
         matrix = excel.get_matrix(start_cell, finish_cell)
-        matrix_cell_codes = '[' + ','.join(
-            ['[' + ','.join([CellTranslator.translate(j, excel, context) for j in i]) + ']' for i in matrix]) + ']'
+        matrix_cell_codes = ','.join(
+            ['[' + ','.join([CellTranslator.translate(j, excel, context) for j in i]) + ']' for i in matrix])
+        if start_cell.row is None and finish_cell.row is None:
+            # whole columns reach as far as the sheet does when the value is asked for
+            matrix_cell_codes += (',' if matrix else '') + \
+                f'*self._rows_below({start_cell.title}, {start_cell.column}, {finish_cell.column}, {len(matrix)})'
+        matrix_cell_codes = '[' + matrix_cell_codes + ']'
 
         return context.set_sub_cell(start_cell, matrix_cell_codes)
